@@ -144,9 +144,14 @@ func vfOutboxWorld() *vfWorld {
 	sid := streams.NewJSONLDIdProperty()
 	sid.Set(w.actorIRI)
 	sender.SetJSONLDId(sid)
-	ib := streams.NewActivityStreamsInboxProperty()
-	ib.SetIRI(vfURL("sender.inbox"))
-	sender.SetActivityStreamsInbox(ib)
+	if vfParam("sender_may_lack_inbox", 0) == 0 || vfChoose("sender.inbox", 2) == 0 {
+		ib := streams.NewActivityStreamsInboxProperty()
+		ib.SetIRI(vfURL("sender.inbox"))
+		sender.SetActivityStreamsInbox(ib)
+	} else {
+		// the sending actor's own document has no inbox (a publish-only actor)
+		vfCover("sender-without-inbox")
+	}
 	w.store = append(w.store, vfStored{id: w.actorIRI.String(), val: sender})
 	np := 2 * vfChoose("outbox.pre", 2) // arbitrary pre-state: empty (nil) or two entries
 	if np > 0 {
